@@ -1,4 +1,5 @@
 import LP.Driver.Scalar
+import LP.Driver.Interval
 import Std.Data.HashMap
 open LP LP.Driver
 
@@ -14,6 +15,8 @@ def checkLine (line : String) : String × String × Verdict :=
         | "int" => checkInt op args r
         | "dy" => checkDy op args r
         | "rat" => checkRat op args r
+        | "qi" => checkQI "qi" op args r
+        | "di" => checkQI "di" op args r
         | _ => Verdict.skip s!"unknown family {fam}"
       (idx, fam, v)
     | _ => ("?", "?", .skip "short line")
